@@ -621,8 +621,10 @@ class ManifestContext:
                     # a time of day can only be mapped to a segment of a live
                     # stream, which has an availabilityStartTime
                     continue
-                tm = availabilityStartTime.replace(
-                    hour=pos.hour, minute=pos.minute, second=pos.second)
+                # the time of day is a UTC time
+                tm = availabilityStartTime.astimezone(UTC()).replace(
+                    hour=pos.hour, minute=pos.minute, second=pos.second,
+                    microsecond=0)
                 if tm < earliest_available:
                     continue
                 drop_delta = tm - availabilityStartTime
